@@ -409,6 +409,16 @@ func c08r(c *ctx) {
 					v := rvariant{"readdata", want, -1, true}
 					key := fmt.Sprintf("reply/%d/%d/%d/%s", mi, ci, pos, side)
 					t.run(mkScenario(key, side, v, fs, rchunks[rot%len(rchunks)], rbufs[(rot/3)%len(rbufs)]))
+					// the helpers that want one kind only: the control frame then arrives inside (or
+					// around) a message that is being skipped, and must be answered and reported all the same
+					for _, w := range []int{1, 2} {
+						if !c.thorough && (rot+w)%2 == 0 && ctl.Op != 8 {
+							continue
+						}
+						v := rvariant{"readdata", []int{w}, -1, true}
+						key := fmt.Sprintf("replyskip/%d/%d/%d/%d/%s", w, mi, ci, pos, side)
+						t.run(mkScenario(key, side, v, fs, rchunks[(rot+w)%len(rchunks)], rbufs[(rot/3)%len(rbufs)]))
+					}
 				}
 			}
 		}
@@ -623,6 +633,13 @@ func c13r(c *ctx) {
 							sc.Ext, sc.Extended = true, extended
 							sc.SkipEmptyCtl = rot%2 == 0
 							t.run(sc)
+							// SkipHeaderCheck turns off the header rules, not the extension's own bit check
+							if c.thorough || rsv >= 4 || rot%4 == 1 {
+								sk := mkScenario("rsvskip"+key[3:], side, v, fs, rchunks[(rot+1)%len(rchunks)], rbufs[(rot/5)%len(rbufs)])
+								sk.Ext, sk.Extended, sk.Skip = true, extended, true
+								sk.SkipEmptyCtl = rot%2 == 1
+								t.run(sk)
+							}
 						}
 					}
 				}
